@@ -15,7 +15,7 @@ LEVEL = "proof"
 
 MANIFEST = {
     "technique": 'Coq proof (frame lemma over the per-file fold) + differential correspondence on adversarial file names',
-    "text": "Theorem C04_confined: what is written for a file depends on that file's fresh lines and old content only, for all file names; C04_exactly_once for whole directories.",
+    "text": "Theorem C04_confined: what is written for a file depends on that file's fresh lines and old content only, for all file names (C04_other_files_irrelevant: edits to other files of the directory never change it); C04_exactly_once for whole directories.",
     "note": PRES_NOTE,
 }
 RULE = ("(a) synthetic code models over an adversarial pool of file names (X.py/TestX.py, Foo.h/IFoo.h/oo.h/h, a/Foo.h, b/Foo.h, "
